@@ -900,8 +900,16 @@ func (r *runningStep) provideEnablingInput(input map[string]any) error {
 		return fmt.Errorf("enabled input provided more than once")
 	}
 	// Check to make sure it's enabled.
-	// This is an optional field, so no input means enabled.
-	enabled := input["enabled"] == nil || input["enabled"] == true
+	// This is an optional field, so no input means enabled. A value written literally in the workflow
+	// arrives the way it was written (for example as the text "true"), so read it the way its schema does.
+	enabled := true
+	if input["enabled"] != nil {
+		unserializedEnabled, err := schema.NewBoolSchema().Unserialize(input["enabled"])
+		if err != nil {
+			return fmt.Errorf("invalid enabled value (%w)", err)
+		}
+		enabled = unserializedEnabled.(bool)
+	}
 	r.enabledInputAvailable = true
 	r.enabledInput <- enabled
 	return nil
